@@ -15,8 +15,8 @@ package hash
 //@ assigns nothing
 //@ ensures [length] len(result) == bytelen(value) + 1 && fresh(result)
 //@ ensures [count-first] result[0] == bytelen(value)
-//@ ensures [value-bytes] forall(k, 0, bytelen(value), result[1+k] == bebyte(value, 8 - bytelen(value) + k))
-//@ loop 1 invariant 1 <= i && i <= 8 && forall(k, 1, i, b[k] == 0) && forall(k, 0, 8, b[1+k] == bebyte(value, k))
+//@ ensures [value-bytes] forall(k, 1, 1 + bytelen(value), result[k] == bebyte(value, 8 - bytelen(value) + (k - 1)))
+//@ loop 1 invariant 1 <= i && i <= 8 && forall(k, 1, i, b[k] == 0) && forall(k, 1, 9, b[k] == bebyte(value, k - 1))
 
 //@ func rightEncode mode int props C13 C09 tags purego
 //@ assigns nothing
@@ -28,16 +28,16 @@ package hash
 //@ func encodeString mode int props C13 C09 tags purego
 //@ assigns nothing
 //@ ensures [length] len(result) == bytelen(8*len(s)) + 1 + len(s) && fresh(result)
-//@ ensures [prefix] result[0] == bytelen(8*len(s)) && forall(k, 0, bytelen(8*len(s)), result[1+k] == bebyte(8*len(s), 8 - bytelen(8*len(s)) + k))
-//@ ensures [payload] forall(k, 0, len(s), result[bytelen(8*len(s)) + 1 + k] == s[k])
+//@ ensures [prefix] result[0] == bytelen(8*len(s)) && forall(k, 1, 1 + bytelen(8*len(s)), result[k] == bebyte(8*len(s), 8 - bytelen(8*len(s)) + (k - 1)))
+//@ ensures [payload] forall(k, bytelen(8*len(s)) + 1, bytelen(8*len(s)) + 1 + len(s), result[k] == s[k - (bytelen(8*len(s)) + 1)])
 
 //@ func bytepad mode int props C13 C09 tags purego
 //@ requires 0 < w && w < 65536
 //@ assigns nothing
 //@ ensures [multiple] len(result) % w == 0 && fresh(result)
 //@ ensures [minimal-padding] len(result) - (bytelen(w) + 1 + len(input)) < w && len(result) >= bytelen(w) + 1 + len(input)
-//@ ensures [prefix] result[0] == bytelen(w) && forall(k, 0, bytelen(w), result[1+k] == bebyte(w, 8 - bytelen(w) + k))
-//@ ensures [payload] forall(k, 0, len(input), result[bytelen(w) + 1 + k] == input[k])
+//@ ensures [prefix] result[0] == bytelen(w) && forall(k, 1, 1 + bytelen(w), result[k] == bebyte(w, 8 - bytelen(w) + (k - 1)))
+//@ ensures [payload] forall(k, bytelen(w) + 1, bytelen(w) + 1 + len(input), result[k] == input[k - (bytelen(w) + 1)])
 //@ ensures [zeros] forall(k, bytelen(w) + 1 + len(input), len(result), result[k] == 0)
 
 // ---------------------------------------------------------------------------------------------
@@ -166,3 +166,39 @@ package hash
 //@ requires s != nil
 //@ assigns nothing
 //@ ensures result == s.algo
+
+// ---------------------------------------------------------------------------------------------
+// KMAC128 over x/crypto's cSHAKE128 (assumed contract: /verif/contracts/trusted/sha3.spec)
+
+// initBlock is bytepad(encode_string(K), 168) for a key K of klen bytes (SP 800-185 section 4.3)
+//@ pred kmacInv(k) = k != nil && k.ShakeHash != nil && k.outputSize >= 0 && k.outputSize <= 268435455 && len(k.initBlock) % 168 == 0 && len(k.initBlock) >= 168 && k.initBlock[0] == 1 && k.initBlock[1] == 168 && obj(k.ShakeHash) != obj(k) && obj(k.initBlock) != obj(k)
+
+//@ func NewKMAC_128 mode int props C13 C09 tags purego
+//@ assigns nothing
+//@ ensures [negative-size] outputSize < 0 ==> result0 == nil && result1 != nil
+//@ ensures [short-key] outputSize >= 0 && len(key) < 16 ==> result0 == nil && result1 != nil
+//@ ensures [ok] outputSize >= 0 && outputSize <= 268435455 && len(key) >= 16 ==> result1 == nil && typeis(result0, *kmac128) && kmacInv(unbox(result0, *kmac128)) && unbox(result0, *kmac128).outputSize == outputSize && fresh(unbox(result0, *kmac128))
+//@ ensures [keyed-state] outputSize >= 0 && len(key) >= 16 ==> unbox(result0, *kmac128).ShakeHash.st == shAbsorb(cshakeNew(seqid("KMAC"), seqid(customizer)), seqid(unbox(result0, *kmac128).initBlock))
+//@ ensures [init-block-is-bytepad-of-encoded-key slow] outputSize >= 0 && len(key) >= 16 ==> unbox(result0, *kmac128).initBlock[2] == bytelen(8*len(key)) && forall(j, 3, 3 + bytelen(8*len(key)), unbox(result0, *kmac128).initBlock[j] == bebyte(8*len(key), 8 - bytelen(8*len(key)) + (j - 3))) && forall(j, 3 + bytelen(8*len(key)), 3 + bytelen(8*len(key)) + len(key), unbox(result0, *kmac128).initBlock[j] == key[j - (3 + bytelen(8*len(key)))]) && forall(j, 3 + bytelen(8*len(key)) + len(key), len(unbox(result0, *kmac128).initBlock), unbox(result0, *kmac128).initBlock[j] == 0) && len(unbox(result0, *kmac128).initBlock) - (3 + bytelen(8*len(key)) + len(key)) < 168
+
+//@ func (*kmac128).ComputeHash mode int props C13 C19 C09 tags purego
+//@ requires kmacInv(k)
+//@ assigns nothing
+//@ ensures [kmac] len(result) == k.outputSize && fresh(result) && forall(j, 0, k.outputSize, result[j] == shOut(shAbsorb(shAbsorb(shAbsorb(shInit(k.ShakeHash.st), seqid(k.initBlock)), seqid(data)), rencSeq(8*k.outputSize)), j))
+//@ ensures [read-only] unchanged(k.ShakeHash.st) && kmacInv(k)
+
+//@ func (*kmac128).SumHash mode int props C13 C09 tags purego
+//@ requires kmacInv(k)
+//@ assigns nothing
+//@ ensures [kmac-stream] len(result) == k.outputSize && fresh(result) && forall(j, 0, k.outputSize, result[j] == shOut(shAbsorb(k.ShakeHash.st, rencSeq(8*k.outputSize)), j))
+//@ ensures [stream-continues] unchanged(k.ShakeHash.st) && kmacInv(k)
+
+//@ func (*kmac128).Reset mode int props C13 C09 tags purego
+//@ requires kmacInv(k)
+//@ assigns k.ShakeHash.st
+//@ ensures k.ShakeHash.st == shAbsorb(shInit(old(k.ShakeHash.st)), seqid(k.initBlock)) && kmacInv(k)
+
+//@ func (*kmac128).Size mode int props C13 tags purego
+//@ requires k != nil
+//@ assigns nothing
+//@ ensures result == k.outputSize
